@@ -26,8 +26,8 @@ func (X *Exec) calleeNames(cc *ssa.CallCommon) []string {
 	}
 	switch v := cc.Value.(type) {
 	case *ssa.Function:
-		if o := v.Origin(); o != nil && X.E.P.Keys[o] != "" {
-			v = o // instantiation of a generic function: known by the generic's names
+		if o := v.Origin(); o != nil {
+			v = o // instantiation of a generic function (of the repository or of a library): known by the generic's names
 		}
 		k := X.E.P.Keys[v]
 		if k == "" {
@@ -485,6 +485,11 @@ func (X *Exec) execCallWith2(fr *Frame, ins ssa.Instruction, cc *ssa.CallCommon,
 				X.noLockAcrossCallback(fr, st, shortName(k)+", which runs user handlers synchronously", pos)
 			}
 		}
+	}
+	if sc := cc.StaticCallee(); sc != nil && sc.Synthetic == "package initializer" {
+		// initialisation of an imported package: it ran before and touches nothing this package's own initial values
+		// depend on (package-level variables are read as constants)
+		return nil
 	}
 	X.curIns = ins
 	skip, forceHavoc := X.applyCallsites(fr, st, cc, how, pos)
@@ -1011,6 +1016,15 @@ func (X *Exec) inlineCall(fr *Frame, st *State, callee *ssa.Function, bindings [
 	m := X.merge(states)
 	res := X.mergeResults(nf, callee)
 	*st = *m
+	// objects the callee had not published are the caller's business from here on
+	var keep []stableRec
+	for _, sr := range st.Stable {
+		if sr.Unpublished && sr.Alloc != nil && sr.Alloc.Parent() == callee {
+			continue
+		}
+		keep = append(keep, sr)
+	}
+	st.Stable = keep
 	return res
 }
 
